@@ -2,7 +2,8 @@
 // over 17 constraint types x parameters x argument intervals x tolerances x integrality, judged by
 // an independent long-double reference (libm) with per-segment extremum search + dense grid.
 //
-// Every case runs in a forked child with an alarm() horizon; the child serialises its verdict to a
+// Every case runs in a forked child; the call of the code under test has a CPU-time horizon (10 s,
+// setitimer(ITIMER_PROF); a wall-clock alarm of 30x behind it); the child serialises its verdict to a
 // pipe; the parent aggregates and prints the vx::Report protocol.
 #include "mp/flat/constr_std.h"
 #include "mp/flat/redef/MIP/core/lin_approx_core.h"
@@ -12,6 +13,7 @@
 #include <signal.h>
 #include <sys/wait.h>
 #include <sys/types.h>
+#include <sys/time.h>
 #include <cmath>
 #include <cfloat>
 #include <climits>
@@ -253,6 +255,19 @@ static bool min_spacing_forced(const Case& c, LD a, LD b, LD off) {
 static std::string loc_class(const Case& c, const Out& o, int seg, LD off, LD ratio) {
   // the generator's own check looks at a few candidate points only: exceedances of a few percent are a
   // different phenomenon than a dropped breakpoint
+  // (the ratio of the probe that found the violation may be far from the segment's maximum when only the
+  // integers are probed: take the segment's own maximum)
+  {
+    LD a = o.x[seg], b = o.x[seg + 1], ya = o.y[seg], slope = ((LD)o.y[seg + 1] - ya) / (b - a);
+    std::vector<LD> xs; long long ns = 0;
+    segment_samples(c.fn, c.prm, a + off, b + off, ya, slope, xs, ns);
+    for (LD x : xs) {
+      if (x < a + off || x > b + off) continue;
+      LD fx = f_ref(c.fn, c.prm, x);
+      if (!std::isfinite((double)fx)) continue;
+      ratio = std::max(ratio, fabsl(fx - (ya + slope * (x - a - off))) / ((LD)c.ubErr * std::max((LD)1, fabsl(fx))));
+    }
+  }
   if (ratio <= 1.1L) return "marginal(<=1.1x)";
   int nseg = (int)o.x.size() - 1;
   if (min_spacing_forced(c, o.x[seg], o.x[seg + 1], off)) return "min-spacing-forced";
@@ -595,10 +610,25 @@ static std::string refusal_class(const std::string& msg) {
   return "other-mp-error";
 }
 
+// CPU-time horizon (ITIMER_PROF: user+system time of this process, independent of machine load) with a
+// generous wall-clock alarm behind it for a hang that does not burn CPU.
+static void set_cpu_horizon(int seconds) {
+  struct itimerval tv; std::memset(&tv, 0, sizeof tv); tv.it_value.tv_sec = seconds;
+  setitimer(ITIMER_PROF, &tv, nullptr);
+  alarm(seconds ? (unsigned)seconds * 30u : 0u);
+}
+static int g_phase_fd = -1;        // child: pipe to the parent; "P" = the code under test has returned
+static int g_horizon = 0;
+static const int ORACLE_CPU_CAP = 900;
+
 static void execute_case(const Case& c, Verdict& v) {
   mp::PLApproxParams prm;
   const std::string FN = FN_NAME[c.fn];
+  struct PhaseEnd { ~PhaseEnd() {
+    if (g_phase_fd >= 0) { set_cpu_horizon(0); ssize_t w = write(g_phase_fd, "P\n", 2); (void)w; set_cpu_horizon(ORACLE_CPU_CAP); } } };
   try {
+    PhaseEnd pe;                     // runs when run_target returns or throws
+    if (g_phase_fd >= 0) set_cpu_horizon(g_horizon);
     run_target(c, prm);
   } catch (const mp::Error& e) {
     std::string rc = refusal_class(e.what());
@@ -652,6 +682,7 @@ static bool read_verdict(const std::string& s, Verdict& v) {
     else if (f[0] == "N" && f.size() >= 3) v.stats[f[1]] += atoll(f[2].c_str());
     else if (f[0] == "V" && f.size() >= 4) v.viol.push_back({f[1], atof(f[2].c_str()), f[3]});
     else if (f[0] == "W" && f.size() >= 4) { v.worst_ratio = atof(f[1].c_str()); v.worst_x = atof(f[2].c_str()); v.worst_seg = atoi(f[3].c_str()); }
+    else if (f[0] == "P") ;
     else if (f[0] == "E") end = true;
   }
   return end;
@@ -666,10 +697,11 @@ static void run_forked(const Case& c, int horizon, Verdict& v) {
   if (pid < 0) { v.status = "harness-error"; close(pfd[0]); close(pfd[1]); return; }
   if (pid == 0) {
     close(pfd[0]);
-    signal(SIGALRM, SIG_DFL);
-    alarm((unsigned)horizon);
+    signal(SIGALRM, SIG_DFL); signal(SIGPROF, SIG_DFL);
+    g_phase_fd = pfd[1]; g_horizon = horizon;
     Verdict cv;
     execute_case(c, cv);
+    set_cpu_horizon(0);
     write_verdict(pfd[1], cv);
     close(pfd[1]);
     _exit(0);
@@ -679,7 +711,11 @@ static void run_forked(const Case& c, int horizon, Verdict& v) {
   while ((r = read(pfd[0], tmp, sizeof tmp)) > 0) buf.append(tmp, (size_t)r);
   close(pfd[0]);
   int st = 0; waitpid(pid, &st, 0);
-  if (WIFSIGNALED(st) && WTERMSIG(st) == SIGALRM) { v.status = "timeout"; return; }
+  if (WIFSIGNALED(st) && (WTERMSIG(st) == SIGALRM || WTERMSIG(st) == SIGPROF)) {
+    // "P" in the pipe: the code under test had returned, the harness's own oracle ran out of its (much larger) budget
+    v.status = buf.compare(0, 2, "P\n") == 0 ? "oracle-timeout" : "timeout";
+    return;
+  }
   if (WIFSIGNALED(st)) { v.status = "crash:signal-" + std::to_string(WTERMSIG(st)); return; }
   if (!WIFEXITED(st) || WEXITSTATUS(st) != 0) { v.status = "crash:exit-" + std::to_string(WIFEXITED(st) ? WEXITSTATUS(st) : -1); return; }
   if (!read_verdict(buf, v)) v.status = "crash:no-verdict";
@@ -713,6 +749,8 @@ static void absorb_case(const Case& c, const Verdict& v) {
   if (v.status == "timeout") {
     R.stats["timeouts_10s"]++;
     std::printf("{\"type\":\"timeout\",\"case\":%s}\n", case_json(c).c_str());
+  } else if (v.status == "oracle-timeout") {
+    R.broken("oracle exceeded its CPU budget on " + case_json(c));
   } else if (v.status.compare(0, 5, "crash") == 0 || v.status == "harness-error") {
     R.stats["crashes"]++;
     note_violation(fname(c) + " " + v.status + " (no approximation, no orderly refusal) [" + IVC[c.ivc] + "]", 1e300,
@@ -843,10 +881,10 @@ int main(int argc, char** argv) {
   // degenerate exponent 0 (never passed by the converter, PreprocessConstraint(PowConstraint) decides
   // it): reported separately, not judged
   if (S.i == 0 && vx::has_flag(argc, argv, "--probe-pow0")) {
-    Case c{POW, 0.0, 0.1, 7.3, 1e-2, false, 0};
+    Case c{POW, 0.0, -1, 1, 1e-2, false, 0};
     Verdict v; run_forked(c, horizon, v);
     R.stats["probe_pow0_cases"]++;
-    std::printf("{\"type\":\"probe\",\"what\":\"Pow exponent 0 on [0.1,7.3] ubErr=1e-2\",\"status\":\"%s\",\"violations\":%zu}\n",
+    std::printf("{\"type\":\"probe\",\"what\":\"Pow exponent 0 on [-1,1] ubErr=1e-2\",\"status\":\"%s\",\"violations\":%zu}\n",
                 vx::jesc(v.status).c_str(), v.viol.size());
   }
   flush_violations();
